@@ -444,9 +444,10 @@ def mk_comp(d, it, items, conds=()):
         moved = tuple(rename_binder(c, it[1], d) for c in it[4])
         return mk_comp(d, it[2], items, moved + tuple(conds))
     # a comprehension over an unfiltered one-item comprehension is one comprehension
-    if it[0] == "comp" and len(it[3]) == 1 and not it[4] and it[3][0][0] not in ("spread", "when"):
+    if it[0] == "comp" and len(it[3]) == 1 and (not it[4] or (not has(items, "idx") and not has(conds, "idx") and not has(it[4], "idx") and not has(it[3], "idx"))) and it[3][0][0] not in ("spread", "when"):
         inner_item = rename_binder(it[3][0], it[1], d)
         inner_iter = it[2]
+        inner_conds = tuple(rename_binder(c, it[1], d) for c in it[4])  # <f(x) for x in X if c(x)>: the filter comes first
 
         def sub(v):
             if isinstance(v, tuple) and v:
@@ -461,7 +462,7 @@ def mk_comp(d, it, items, conds=()):
                 return renorm(new) if new != v else v
             return v
 
-        return mk_comp(d, inner_iter, tuple(sub(i) for i in items), tuple(sub(c) for c in conds))
+        return mk_comp(d, inner_iter, tuple(sub(i) for i in items), inner_conds + tuple(sub(c) for c in conds))
     # ... and over a comprehension that contributes several (possibly conditional) items per element: each of them is
     # mapped (a generator of tuples consumed by `[f(a, b) for a, b in gen]`)
     if it[0] == "comp" and not it[4] and len(it[3]) >= 1 and all(i[0] not in ("spread", "kv", "kadd") for i in it[3]) and not has(items, "idx") and not has(conds, "idx") and all(i[0] not in ("spread", "kv", "kadd") for i in items):
@@ -2593,6 +2594,13 @@ class AV:
                     args = tuple(_unwrap_seq(a) for a in args)
                 if name in ("any", "all") and len(args) == 1 and not kwargs:
                     return mk_anyall(name, args[0])
+                if name in ("map", "filter") and len(args) == 2 and args[0][0] == "fn" and not kwargs:
+                    # map(f, X) is (f(x) for x in X); filter(p, X) is (x for x in X if p(x)) - f, p local functions / lambdas
+                    d_ = fr.binder + 1 + max(max_binder(args[1]), 0)
+                    sub_fr = Frame(fr.func, fr.rel, fr.env, fr.depth, d_)
+                    r_ = self._apply_closure(args[0][1], (("bv", d_),), [], sub_fr)
+                    if r_ is not None and not has_unk(r_):
+                        return mk_comp(d_, args[1], (r_,)) if name == "map" else mk_comp(d_, args[1], (("bv", d_),), (r_,))
                 if name == "map" and len(args) == 2 and args[0] == ("sym", "str") and not kwargs:
                     d_ = fr.binder + 1 + max_binder(args[1])
                     return mk_comp(d_, args[1], (mk_s((("h", ("bv", d_)),)),))  # map(str, X) is (str(x) for x in X)
